@@ -10,6 +10,7 @@
 #include <string>
 #include <vector>
 
+#include "common/types.h"
 #include "common/rng.h"
 #include "draco/attributes/geometry_attribute.h"
 #include "draco/attributes/point_attribute.h"
@@ -18,6 +19,7 @@
 #include "draco/point_cloud/point_cloud.h"
 
 namespace vf {
+
 
 using draco::DataType;
 using draco::GeometryAttribute;
@@ -32,7 +34,7 @@ struct Attr {
   size_t nvals = 0;
   std::vector<uint8_t> data;           // nvals * nc * DataTypeLength(dt)
   std::vector<uint32_t> point_to_val;  // per point; empty => identity
-  int stride() const { return nc * draco::DataTypeLength(dt); }
+  int stride() const { return nc * TypeBytes(dt); }
   const uint8_t *val(size_t i) const { return data.data() + i * stride(); }
   uint8_t *val(size_t i) { return data.data() + i * stride(); }
   uint32_t map(uint32_t p) const { return point_to_val.empty() ? p : point_to_val[p]; }
@@ -275,7 +277,7 @@ inline void PutF(uint8_t *p, float f) { memcpy(p, &f, 4); }
 // Value styles: 0 smooth function of the vertex coordinate, 1 random in box, 2 constant,
 // 3 few distinct values, 4 type-boundary values (ints) / huge+tiny magnitudes (floats), 5 random bits (ints).
 inline void FillValue(Rng &r, const AttrPlan &pl, const std::array<float, 3> &c, float scale, float offset, uint8_t *out, bool narrow_int32 = false) {
-  const int len = draco::DataTypeLength(pl.dt);
+  const int len = TypeBytes(pl.dt);
   for (int k = 0; k < pl.nc; ++k) {
     double base = c[k % 3] * (1 + 0.1 * (k / 3));
     if (pl.dt == draco::DT_FLOAT32) {
